@@ -1,10 +1,10 @@
 (* C16 — the spectrum fold of planning() (Model/Batch.spectrum_assign) is the request history of the C14 model, and what a
-   request gets only depends on what was accepted before it on the OMS it crosses.  Uses the C14 property theorems
-   (Props/C14.v) as they are; nothing of C14 is modified.  The batch model is referred to by qualified names. *)
+   request gets only depends on what was accepted before it on the OMS it crosses.  Uses the C14 proofs (run_spec = C14_history, pth_assign_one_total = C14_never_raises, the very lemmas Props/C14.v
+   restates) as they are; nothing of C14 is modified.  They are taken from Proofs/Spectrum5-6.v rather than from Props/C14.v
+   so that this file does not depend on C14's generated translation of the source (Gen/SpectrumGen.v).  The batch model is referred to by qualified names. *)
 From Coq Require Import Lia ZifyBool List.
 From Verif Require Import Prelude Model.Spectrum.
 From Verif Require Import Proofs.SpectrumBase Proofs.Spectrum3 Proofs.Spectrum5 Proofs.Spectrum6.
-From Verif Require Props.C14.
 From Verif Require Model.Verdict Model.Batch.
 Open Scope Z_scope.
 
@@ -63,8 +63,8 @@ Lemma outcome_local : forall d p st1 st2 rq,
   exists s1 s2 o, pth_assign_one p st1 rq = Ok (s1, o) /\ pth_assign_one p st2 rq = Ok (s2, o).
 Proof.
   intros d p st1 st2 rq W1 W2 V1 V2 Hne Hp Hs S.
-  destruct (C14.C14_never_raises d p st1 rq W1 V1 Hne Hp Hs) as [[s1 o1] R1].
-  destruct (C14.C14_never_raises d p st2 rq W2 V2 Hne Hp Hs) as [[s2 o2] R2].
+  destruct (pth_assign_one_total d p st1 rq W1 V1 Hne Hp Hs) as [[s1 o1] R1].
+  destruct (pth_assign_one_total d p st2 rq W2 V2 Hne Hp Hs) as [[s2 o2] R2].
   exists s1, s2, o1. split; [exact R1|]. rewrite R2. f_equal. f_equal.
   unfold pth_assign_one in R1, R2. destruct (pre_blocked rq); [inversion R1; inversion R2; congruence|].
   match type of R1 with (if ?c then _ else _) = _ => destruct c end; [inversion R1; inversion R2; congruence|].
@@ -123,8 +123,8 @@ Lemma spectrum_depends_only_on_shared_bookings : forall d p st0 rqsA rqsB stA ou
   exists sA sB o, pth_assign_one p stA rq = Ok (sA, o) /\ pth_assign_one p stB rq = Ok (sB, o).
 Proof.
   intros d p st0 rqsA rqsB stA outsA stB outsB rq W FA FB RA RB V Hne Hp Hs Hb.
-  destruct (C14.C14_history d p rqsA st0 stA outsA W FA RA) as [WA [_ HA]].
-  destruct (C14.C14_history d p rqsB st0 stB outsB W FB RB) as [WB [_ HB]].
+  destruct (run_spec d p rqsA st0 stA outsA W FA RA) as [WA [_ HA]].
+  destruct (run_spec d p rqsB st0 stB outsB W FB RB) as [WB [_ HB]].
   assert (VA : valid_ids stA (path_oms rq)) by (unfold valid_ids in *; rewrite (hi_len _ _ _ HA); exact V).
   assert (VB : valid_ids stB (path_oms rq)) by (unfold valid_ids in *; rewrite (hi_len _ _ _ HB); exact V).
   apply (outcome_local d); try assumption.
